@@ -62,6 +62,7 @@ func SvclessVariant(r *Request) *Request {
 //   (b) OnlyNested   : only on the nested message
 //   (c) Siblings     : on two sibling nested messages of an un-annotated parent
 //   (d) Deep         : on a nested message and on a message declared inside that one (two levels)
+//   (e) Hollow       : on messages declared inside field-less parents (one and two levels)
 // plus (in the thorough tier) one schema per tree.
 var c14Features = []string{"int64", "enum", "nullable", "empty", "timestamp", "bytes", "flatten", "oneof", "unwrap"}
 
@@ -102,6 +103,8 @@ func c14NestedTrees(feature, pkg string) map[string]*Message {
 		"b": c14Plain("OnlyNested").WithNested(an("Inner", pkg+".OnlyNested.Inner")),
 		"c": c14Plain("Siblings").WithNested(an("First", pkg+".Siblings.First"), c14Plain("Between"), an("Second", pkg+".Siblings.Second")),
 		"d": c14Plain("Deep").WithNested(an("Mid", pkg+".Deep.Mid").WithNested(an("Bottom", pkg+".Deep.Mid.Bottom"), c14Plain("Aside"))),
+		// (e) Hollow: parents WITHOUT fields of their own (pure namespaces), one and two levels
+		"e": M("Hollow").WithNested(an("Inner", pkg+".Hollow.Inner"), M("HollowMid").WithNested(an("Deep", pkg+".Hollow.HollowMid.Deep"))),
 	}
 }
 
@@ -132,11 +135,11 @@ func C14NestedCatalogue(tier string) []*Request {
 	for _, ft := range c14Features {
 		id := "ftnd" + ft
 		trees := c14NestedTrees(ft, id+".v1")
-		r := c14RequestOf(id, []*Message{trees["a"], trees["b"], trees["c"], trees["d"]})
+		r := c14RequestOf(id, []*Message{trees["a"], trees["b"], trees["c"], trees["d"], trees["e"]})
 		r.Tags = append(r.Tags, ft)
 		out = append(out, r)
 		if tier == "thorough" {
-			for _, k := range []string{"a", "b", "c", "d"} {
+			for _, k := range []string{"a", "b", "c", "d", "e"} {
 				id := "ftnd" + ft + k
 				r := c14RequestOf(id, []*Message{c14NestedTrees(ft, id+".v1")[k]})
 				r.Tags = append(r.Tags, ft, "tree-"+k)
